@@ -361,7 +361,15 @@ func (a *sparseArrayObject) _defineIdxProperty(idx uint32, desc PropertyDescript
 					a.length = idx + 1
 				}
 			} else {
-				a.val.self.(*arrayObject).values[idx] = prop
+				// expand() has switched the object to the dense representation: the element and its
+				// bookkeeping belong to the new array, a itself is no longer the object's implementation
+				ar := a.val.self.(*arrayObject)
+				ar.values[idx] = prop
+				ar.objCount++
+				if _, ok := prop.(*valueProperty); ok {
+					ar.propValueCount++
+				}
+				return ok
 			}
 		} else {
 			a.items[i].value = prop
